@@ -1,6 +1,8 @@
 package response
 
 import (
+	"strconv"
+
 	"verifharness/internal/rng"
 )
 
@@ -90,6 +92,88 @@ func silentEntity(r *rng.R, pretty bool, acc string) (Op, bool) {
 	return Op{}, false
 }
 
+// lengthSpellings / otherHeaders: the names a handler (or an earlier filter) declares on the response
+// before, between and after its writes; Content-Length in the spellings net/http canonicalises and
+// one it does not (reached with a direct map assignment only).
+var lengthSpellings = []string{"Content-Length", "content-length", "CONTENT-LENGTH", "Content-length"}
+var otherHeaders = []string{"Content-Type", "Content-Encoding", "Transfer-Encoding", "Content-Range", "X-Content-Length", "Trailer", "Etag"}
+
+// bodyOf estimates the body bytes a call hands down when nothing fails (what a handler that declares
+// a length would count).
+func bodyOf(o Op) int {
+	switch o.Kind {
+	case "w", "wes":
+		return o.N
+	case "we":
+		if !o.ErrNil {
+			return o.N
+		}
+	case "wse", "whe", "wen", "waj", "wax", "wj", "whj", "whx":
+		if f := FactsOf(o.Val); f.PJ > 0 {
+			return f.PJ
+		}
+	}
+	return 0
+}
+
+// genHdr draws a header change made before ops[at]: mostly a declared Content-Length that is
+// larger than, equal to or smaller than what the sequence writes (in all, so far, in the next call),
+// or not a length at all; sometimes another header, or the removal of one.
+func genHdr(r *rng.R, ops []Op, at int) Op {
+	o := Op{Kind: "hd", Via: []string{"set", "set", "add", "addheader", "raw", "del"}[r.Intn(6)]}
+	if r.Chance(1, 4) {
+		o.HName = otherHeaders[r.Intn(len(otherHeaders))]
+		o.HValue = []string{"text/plain", "gzip", "chunked", "bytes 0-9/10", "17", "0", ""}[r.Intn(7)]
+		return o
+	}
+	o.HName = lengthSpellings[r.Intn(len(lengthSpellings))]
+	total, sofar, next := 0, 0, 0
+	for i, p := range ops {
+		b := bodyOf(p)
+		total += b
+		if i < at {
+			sofar += b
+		}
+		if i == at {
+			next = b
+		}
+	}
+	base := []int{total, total, sofar, next, sofar + next, genSize(r)}[r.Intn(6)]
+	switch r.Intn(12) {
+	case 0, 1, 2, 3:
+		o.HValue = strconv.Itoa(base)
+	case 4, 5:
+		o.HValue = strconv.Itoa(base + 1 + r.Intn(3))
+	case 6:
+		o.HValue = strconv.Itoa(base + genSize(r))
+	case 7:
+		if base -= 1 + r.Intn(3); base < 0 {
+			base = 0
+		}
+		o.HValue = strconv.Itoa(base)
+	case 8:
+		o.HValue = strconv.Itoa(base / 2)
+	case 9:
+		o.HValue = []string{"0", "1", "4294967296", "9223372036854775807", "99999999999999999999"}[r.Intn(5)]
+	case 10:
+		o.HValue = []string{"+" + strconv.Itoa(base+1), " " + strconv.Itoa(base+1), strconv.Itoa(base+1) + " ", "0x10", "1e3", "007"}[r.Intn(6)]
+	default:
+		o.HValue = []string{"", "-1", "chunked", "12, 12", "١٢"}[r.Intn(5)]
+	}
+	return o
+}
+
+// declareHeaders inserts header changes into a drawn sequence (they obey the discipline: a header
+// change hands nothing to the underlying writer).
+func declareHeaders(r *rng.R, s *Seq) {
+	k := 1 + r.Intn(3)
+	for ; k > 0; k-- {
+		at := r.Intn(len(s.Ops) + 1)
+		h := genHdr(r, s.Ops, at)
+		s.Ops = append(s.Ops[:at], append([]Op{h}, s.Ops[at:]...)...)
+	}
+}
+
 // GenSeq draws one case.  80 % obey the discipline by construction (setters, at most one call that
 // sets the status, then only Write / setters / calls that write nothing); 20 % are free.
 func GenSeq(r *rng.R) Seq {
@@ -177,6 +261,21 @@ func GenSeq(r *rng.R) Seq {
 		for len(s.Ops) < n {
 			s.Ops = append(s.Ops, genOp(r, all[r.Intn(len(all))], st))
 		}
+	}
+	hdr := r.Fork(0x4844)
+	if s.Handler != "default" && hdr.Chance(3, 10) {
+		// the handler (or whoever runs before it) also declares headers on the response, a
+		// Content-Length first of all; in one case of five it declares and writes no body at all
+		if hdr.Chance(1, 5) {
+			keep := s.Ops[:0:0]
+			for _, o := range s.Ops {
+				if o.Kind == "pp" || o.Kind == "acc" || o.Kind == "wh" {
+					keep = append(keep, o)
+				}
+			}
+			s.Ops = keep
+		}
+		declareHeaders(hdr, &s)
 	}
 	s.Fail = FailSpec{From: -1}
 	if s.Handler == "default" {
